@@ -97,7 +97,10 @@ def run(case, ctx):
         exp_state, margin = spec(epoch)[-1]
         got = det.drift_state
         if got != exp_state:
-            if margin <= TOL:
+            # a floating-point near-tie is not judged; an EXACT tie (both sides bit-equal, e.g. 0 >= 0 on an all-correct
+            # prefix) is judged for DDM and STEPD, whose docstrings state the comparison operator; EDDM's docstring
+            # (strict <) contradicts its code (<=), so its exact ties are not judged either (DESIGN.md 9.5)
+            if margin <= TOL and not (margin == 0.0 and name != "eddm"):
                 ctx.near_tie()
             ctx.violation("state", f"C05:{name}:state",
                           f"after sample {t} (epoch {epoch_no}, n={len(epoch)}) spec says {exp_state!r}, detector says {got!r}; cfg={cfg}")
